@@ -92,6 +92,59 @@ func (vc *VC) solveAll(outDir string, timeoutS int, par int, strict bool) {
 		}(o)
 	}
 	wg.Wait()
+	vc.solveCanaries(outDir, par)
+}
+
+// solveCanaries: each group passes if some member is not refuted within a short budget.
+func (vc *VC) solveCanaries(outDir string, par int) {
+	seen := map[string]bool{}
+	var groups []string
+	for _, g := range vc.canaryOrder {
+		if !seen[g] {
+			seen[g] = true
+			groups = append(groups, g)
+		}
+	}
+	results := make([]*Obligation, len(groups))
+	sem := make(chan struct{}, par)
+	var wg sync.WaitGroup
+	for gi, g := range groups {
+		wg.Add(1)
+		sem <- struct{}{}
+		go func(gi int, g string) {
+			defer wg.Done()
+			defer func() { <-sem }()
+			members := vc.canaries[g]
+			sum := *members[0]
+			sum.Status = "vacuous"
+			sum.Outputs = map[string]string{}
+			for mi, m := range members {
+				file := filepath.Join(outDir, fmt.Sprintf("canary_%d_%d.smt2", gi, mi))
+				os.WriteFile(file, []byte(m.SMT), 0o644)
+				refuted := false
+				for _, s := range []solverSpec{solvers[0], solvers[2]} {
+					r := runSolver(context.Background(), s, file, 2)
+					sum.Time += r.secs
+					sum.Outputs[s.name] = trimOut(r.out)
+					if r.answer == "unsat" {
+						refuted = true
+						sum.Solver = s.name
+						break
+					}
+				}
+				if !refuted {
+					sum.Status, sum.Solver = "proved", "canary"
+					sum.Trail = m.Trail
+					break
+				}
+			}
+			results[gi] = &sum
+		}(gi, g)
+	}
+	wg.Wait()
+	for _, r := range results {
+		vc.addObligation(r)
+	}
 }
 
 func (vc *VC) solveOne(o *Obligation, file string, timeoutS int, strict bool) {
